@@ -264,6 +264,7 @@ def coq_eval_codes(name, header, cases, shards=8, timeout=3000, per_shard_min=2)
 
 CODE_BITS = {1: "Ok/Err class", 2: "recovered masks", 4: "G_i/H_i (static) scalars", 8: "dynamic-point scalars",
              16: "per-proof transcript operations before the last challenge", 32: "weight-transcript operations",
+             64: "guard order (the model refuses the batch at the statement/generator consistency checks, the implementation went on to the transcripts)",
              128: "per-proof transcript operations (incl. response scalars bound for the batch weight)"}
 
 
